@@ -18,9 +18,11 @@ PALETTE = {
     10: ("_ = (*[4]int)(gs)", "cannot convert slice with length", 10),
     12: ("close(gcc)", "close of closed channel", 12),
     13: ("gcc <- 1", "send on closed channel", 13),
+    14: ("select {\ncase gcc <- 1:\ndefault:\n}", "send on closed channel", 13),
+    15: ("_ = gub == gub", "comparing uncomparable type", 7),
 }
 KINDS = sorted(PALETTE)
-NONBLOCKING_KINDS = [k for k in KINDS if k != 13]      # a channel send makes the function blocking
+NONBLOCKING_KINDS = [k for k in KINDS if k not in (13, 14)]      # a channel send makes the function blocking
 
 
 def msg_class(msg):
@@ -44,6 +46,10 @@ var (
 	gf        func()
 	ge        interface{} = 1
 	gu        interface{} = []int{1}
+	gub       interface{} = struct {
+		_ []byte
+		x int
+	}{x: 1}
 	gneg            = -1
 	gbig      int64 = 1 << 62
 	gcc       chan int
@@ -117,7 +123,14 @@ def gen_program(r, opts):
                 out.append(("block",))
         return out
 
-    return [body(fi, 0, False, [r.choice([6, 10, 14, 20])]) for fi in range(nfun)]
+    prog = []
+    for fi in range(nfun):
+        b = body(fi, 0, False, [r.choice([6, 10, 14, 20])])
+        if r.random() < opts.get("unnamed", 0.35):
+            # unnamed result: `return r` fixes the value; deferred closures changing r afterwards must not show
+            b = [("retr",) if s_[0] == "return" else s_ for s_ in b] + [("retr",)]
+        prog.append(b)
+    return prog
 
 
 def depth_of(body):
@@ -191,6 +204,8 @@ def go_body(body, ind, force_blocking):
         elif k == "block":
             L.append(t + "req <- true")
             L.append(t + "<-ack")
+        elif k == "retr":
+            L.append(t + "return r")
     return L
 
 
@@ -236,11 +251,18 @@ def go_program(prog, flavour):
 }
 ''')
     for i, b in enumerate(prog):
-        L.append("func f%d(a int) (r int) {" % i)
-        L.append("\tx := a")
-        L.append("\t_ = x")
-        L += go_body(b, 1, flavour["force_blocking"])
-        L.append("\treturn")
+        if is_unnamed(b):
+            L.append("func f%d(a int) int {" % i)
+            L.append("\tx := a")
+            L.append("\tr := 0")
+            L.append("\t_, _ = x, r")
+            L += go_body(b, 1, flavour["force_blocking"])
+        else:
+            L.append("func f%d(a int) (r int) {" % i)
+            L.append("\tx := a")
+            L.append("\t_ = x")
+            L += go_body(b, 1, flavour["force_blocking"])
+            L.append("\treturn")
         L.append("}")
         L.append("")
     L.append('''func main() {
@@ -265,6 +287,10 @@ def go_program(prog, flavour):
 }
 ''')
     return "\n".join(L)
+
+
+def is_unnamed(body):
+    return any(s_[0] == "retr" for s_ in body)
 
 
 def coq_pval(v):
@@ -301,6 +327,8 @@ def coq_body(body):
             out.append("SGoexit")
         elif k == "block":
             out.append("SBlock")
+        elif k == "retr":
+            out.append("SRetR")
     return "[" + "; ".join(out) + "]"
 
 
@@ -414,6 +442,16 @@ type myErr struct{ s string }
 
 func (e *myErr) Error() string { return e.s }
 
+// structs whose ONLY uncomparable field is blank (the `_ [0]func()` / `_ []byte` idiom)
+type blankSlice struct {
+	_ []byte
+	x int
+}
+type blankFuncs struct {
+	_ [0]func()
+	x int
+}
+
 type stringer interface{ String() string }
 type withM struct{}
 
@@ -442,6 +480,11 @@ var (
 	gu   interface{} = []int{1}
 	gum  interface{} = map[int]int{}
 	gus  interface{} = struct{ f []int }{}
+	gub1 interface{} = blankSlice{x: 1}
+	gub2 interface{} = blankFuncs{x: 1}
+	gub3 interface{} = [2]blankSlice{}
+	gmk        = map[interface{}]int{}
+	gfull chan int
 	gneg       = -1
 	gbig int64 = 1 << 62
 	gnc  chan int
@@ -500,6 +543,9 @@ func value(name string, p interface{}, same func(v interface{}) bool) {
 func main() {
 	gcc = make(chan int)
 	close(gcc)
+	gfull = make(chan int, 1)
+	gfull <- 1
+	close(gfull)
 	try("index-slice", func() { _ = gs[gi] })
 	try("index-slice-neg", func() { _ = gs[gneg1] })
 	try("index-array", func() { _ = garr[gi] })
@@ -534,6 +580,12 @@ func main() {
 	try("compare-slice", func() { _ = gu == gu })
 	try("compare-map", func() { _ = gum == gum })
 	try("compare-struct-with-slice", func() { _ = gus == gus })
+	try("compare-struct-blank-slice", func() { _ = gub1 == gub1 })
+	try("compare-struct-blank-funcarray", func() { _ = gub2 == gub2 })
+	try("compare-array-of-blank-struct", func() { _ = gub3 == gub3 })
+	try("mapkey-slice", func() { gmk[gu] = 1 })
+	try("mapkey-struct-blank-slice", func() { gmk[gub1] = 1 })
+	try("mapkey-struct-blank-funcarray-read", func() { _ = gmk[gub2] })
 	try("make-slice-neg", func() { _ = make([]int, gneg) })
 	try("make-slice-cap-lt-len", func() { _ = make([]int, gi, gi-1) })
 	try("make-slice-big", func() { _ = make([]int, gbig) })
@@ -542,6 +594,29 @@ func main() {
 	try("close-nil", func() { close(gnc) })
 	try("close-closed", func() { close(gcc) })
 	try("send-closed", func() { gcc <- 1 })
+	try("send-closed-full", func() { gfull <- 1 })
+	try("select-send-closed-default", func() {
+		select {
+		case gcc <- 1:
+			println("sent")
+		default:
+			println("default taken")
+		}
+	})
+	try("select-send-closed-full-default", func() {
+		select {
+		case gfull <- 1:
+			println("sent")
+		default:
+			println("default taken")
+		}
+	})
+	try("select-send-closed-nodefault", func() {
+		select {
+		case gcc <- 1:
+			println("sent")
+		}
+	})
 	tryv("addr-slice-var-in", 2, func() int { p := &gs[g1]; return *p })
 	tryv("addr-slice-var-out", 0, func() int { p := &gs[gi]; return *p })
 	tryv("addr-slice-var-neg", 0, func() int { p := &gs[gneg1]; return *p })
@@ -585,6 +660,13 @@ PALETTE_EXPECT = {
     "assert-concrete": "interface conversion:", "assert-iface": "interface conversion:", "assert-nil": "interface conversion:",
     "compare-slice": "comparing uncomparable type", "compare-map": "comparing uncomparable type",
     "compare-struct-with-slice": "comparing uncomparable type",
+    "compare-struct-blank-slice": "comparing uncomparable type", "compare-struct-blank-funcarray": "comparing uncomparable type",
+    "compare-array-of-blank-struct": "comparing uncomparable type",
+    "mapkey-slice": "hash of unhashable type", "mapkey-struct-blank-slice": "hash of unhashable type",
+    "mapkey-struct-blank-funcarray-read": "hash of unhashable type",
+    "send-closed-full": "send on closed channel", "select-send-closed-default": "send on closed channel",
+    "select-send-closed-full-default": "send on closed channel", "select-send-closed-nodefault": "send on closed channel",
+
     "make-slice-neg": "makeslice: len out of range", "make-slice-cap-lt-len": "makeslice: cap out of range",
     "make-slice-big": "makeslice: len out of range", "make-chan-neg": "makechan: size out of range",
     "slice2arr-short": "cannot convert slice with length",
